@@ -29,6 +29,9 @@ theorem lrdC_ok [Inhabited α] {l : List α} {i : Nat} (h : i < l.length) :
     lrdC l i = .ok (l.getD i default) := by
   simp [lrdC, h]
 
+theorem idxC_ok {len i : Nat} (h : i < len) : idxC len i = .ok () := by
+  simp [idxC, h]
+
 theorem sliceFromC_ok {len lo : Nat} (h : lo ≤ len) : sliceFromC len lo = .ok () := by
   simp [sliceFromC, h]
 theorem sliceToC_ok {len hi : Nat} (h : hi ≤ len) : sliceToC len hi = .ok () := by
